@@ -2,9 +2,9 @@
 # Runs every claimed property's quick check on the current tree, 3 at a time; prints a summary line per property.
 cd "$(dirname "$0")/.."
 ids=$(python3 -c "import json;print(' '.join(c['property_id'] for c in json.load(open('MANIFEST.json'))['checks']))")
-mkdir -p /tmp/allq
+mkdir -p out/allq
 for id in $ids; do
-  ( ./check $id quick > /tmp/allq/$id.log 2>&1; echo "$id exit=$? $(grep -c '^VIOLATION' /tmp/allq/$id.log) violations; $(tail -1 /tmp/allq/$id.log | cut -c1-160)" ) &
+  ( ./check $id quick > out/allq/$id.log 2>&1; echo "$id exit=$? $(grep -c '^VIOLATION' out/allq/$id.log) violations; $(tail -1 out/allq/$id.log | cut -c1-160)" ) &
   while [ $(jobs -r | wc -l) -ge 3 ]; do sleep 1; done
 done
 wait
